@@ -76,6 +76,30 @@ func c12Build(kind, forms string, dflt, dfltBrace bool) *c12Tpl {
 	}
 	var pre, post string
 	switch kind {
+	case "statements-plain-selected":
+		s := at.New(ClsUserName, "script", "names")
+		c0 := at.New(ClsPlainCmd, "cmd", "")
+		c1 := at.New(ClsPlainCmd, "cmd", "")
+		pre = "script " + ph(s) + " {\n" + ph(c0) + "\npory"
+		post = ph(c1) + "(\"after$\")\n}"
+		for i := 0; i < total; i++ {
+			ca := at.New(ClsPlainCmd, "cmd", "")
+			var content string
+			if i < n {
+				// named cases: no inline text or moves() at all
+				content = fmt.Sprintf("%s(%s)", ph(ca), ph(at.New(ClsIdent, "arg", "")))
+				if isBrace(i) {
+					content += "\n" + ph(at.New(ClsPlainCmd, "cmd", ""))
+				}
+			} else {
+				content = fmt.Sprintf("%s(\"only in the default case$\")", ph(ca))
+				if isBrace(i) {
+					content += fmt.Sprintf("\n%s(moves(walk_up))", ph(at.New(ClsPlainCmd, "cmd", "")))
+				}
+			}
+			contents = append(contents, content)
+			contentsOut = append(contentsOut, content)
+		}
 	case "statements", "statements-nested":
 		s := at.New(ClsUserName, "script", "names")
 		c0 := at.New(ClsPlainCmd, "cmd", "")
@@ -270,6 +294,11 @@ func RunC12(env *Env, rep *Report) {
 					cases = append(cases, c12Case(c12Build(kind, f, false, false), true))
 				}
 			}
+		}
+	}
+	for _, f := range []string{"c", "b", "cb"} {
+		for _, d := range []int{1, 2} {
+			cases = append(cases, c12Case(c12Build("statements-plain-selected", f, true, d == 2), false))
 		}
 	}
 	for _, kind := range []string{"movement-empty-case", "mart-empty-case"} {
